@@ -224,3 +224,50 @@ def selftest(prop, progs, max_steps=30000):
         vlib.log("  NOT rejected (%s): %s" % (k, src))
     # a duplicated event equal to its neighbour's copy can be indistinguishable only if the program emitted it twice: none expected
     return 0 if rejected == len(mutants) and mutants else 2
+
+
+def foot_pass(prop, progs, verd, stats, cov, sample=None, seed=1):
+    """Frames stage 2: the per-instruction register footprint of the main thread of the real VM
+    (harness option foot) judged by TLC against specs/FramesStep.tla.  Programs that rewrite
+    locals from outside (debug.setlocal) are skipped; faulted/cancelled runs are not used."""
+    import random
+    ps = [p for p in progs if "setlocal" not in p["src"] and not (p.get("opts") or {}).get("noctx") and "fault" not in p]
+    if sample and len(ps) > sample:
+        ps = random.Random(seed).sample(ps, sample)
+    runs = [dict(p, opts=dict(p.get("opts") or {}, foot=True)) for p in ps]
+    outs = run_real(runs, "foot", timeout=2400)
+    recs = []
+    nsteps = 0
+    for p in ps:
+        st = outs[p["id"]].get("steps") or []
+        nsteps += len(st)
+        if st:
+            recs.append({"id": p["id"], "steps": st})
+    byid = {p["id"]: p for p in ps}
+    nver = 0
+    for r in vlib.validate_batches("FramesStepTrace", "FramesStepTrace", recs, "foot", batch=400, parallel=4, timeout=1500, heap="3g"):
+        stats["states"] += r.distinct
+        stats["transitions"] += r.generated
+        vs = r.tag("VERDICT")
+        if len(vs) != r.nrecords:
+            raise vlib.Infra("FramesStepTrace: %d verdicts for %d runs" % (len(vs), r.nrecords))
+        for v in vs:
+            nver += 1
+            if not v["ok"]:
+                p = byid[v["id"]]
+                step = (outs[v["id"]].get("steps") or [])[v["at"] - 1]
+                verd.candidate("%s:step:%s" % (prop, v["rule"]), "program (%s): instruction %s A=%d B=%d C=%d at line %d breaks '%s' (changed live locals %s, locals pushed above the top %s)" % (
+                    p["fam"], step["op"], step["a"], step["b"], step["c"], step["line"], v["rule"], step["changed"], step["dropped"]),
+                    {"program": p, "step": step, "foot": True})
+    vlib.log("[%s] FramesStep: %d programs, %d distinct instruction steps of the real VM judged by TLC" % (prop, nver, nsteps))
+    cov["frames_step"] = {"programs": nver, "distinct_steps": nsteps}
+    return nver, nsteps
+
+
+def replay_foot(prop, rec):
+    """re-runs the footprint pass on the program of a replay file"""
+    vlib.build_harness()
+    verd = vlib.Verdicts(prop)
+    verd.findings = []
+    foot_pass(prop, [rec["replay"]["program"]], verd, {"states": 0, "transitions": 0}, {})
+    return verd.finish()
